@@ -84,6 +84,7 @@ type scenario struct {
 	Depth     int    // wrapper chain depth (>= Skip)
 	Inlinable bool
 	Privacy   bool
+	FlagsHow  int // which public way sets the flags (vlib.SetFlagsVia)
 	PrevSkip  int // -1: none; otherwise SetSkip(PrevSkip) is called before the final skip is set
 }
 
@@ -155,7 +156,7 @@ func run(t vlib.TB, test string, sc scenario) {
 			c.lg = slog.Default()
 		}
 	}
-	slog.SetFlags(flags) // after NewSlogHandler, which edits the caller flag
+	vlib.SetFlagsVia(sc.FlagsHow, flags, slog.Lcaller|slog.Llineno|slog.Lcallerpackagename|slog.Lprivacypath) // after NewSlogHandler, which edits the caller flag
 
 	func() {
 		defer func() {
@@ -266,6 +267,7 @@ func TestSampled(t *testing.T) {
 		sc.Inlinable = rapid.Bool().Draw(t, "inlinable")
 		sc.Privacy = rapid.IntRange(0, 3).Draw(t, "privacy") != 0
 		sc.PrevSkip = rapid.SampledFrom([]int{-1, -1, 0, 1, 3}).Draw(t, "previousSkip")
+		sc.FlagsHow = rapid.SampledFrom([]int{0, 0, 1, 2, 3}).Draw(t, "flagsHow")
 		run(t, "TestSampled", sc)
 	})
 }
